@@ -13,6 +13,7 @@ import InTotoModel.Model.Wire
 import InTotoModel.Model.KeyId
 import InTotoModel.Driver.RecordProto
 import InTotoModel.Driver.CodecProto
+import InTotoModel.Model.JsonText
 /-
   Executable model driver: one operation per input line, one canonical answer per line.
   Unknown or malformed operations answer `bad-op` (never a default).
@@ -56,6 +57,14 @@ def step (line : String) : String :=
     | some t =>
       match Json.parseJ t with
       | some v => "ok " ++ showJV v
+      | none => "none"
+    | none => "bad-op"
+  | ["readtext", h] =>
+    -- serde_json::from_str::<Value>: `ok <value, objects as BTreeMaps>` or `none`
+    match strOfHex h with
+    | some t =>
+      match JsonText.readText t with
+      | some v => "ok " ++ showJV (Json.norm v)
       | none => "none"
     | none => "bad-op"
   | "vblock" :: t :: rest =>
